@@ -146,8 +146,10 @@ ORDER = ['C%02d' % i for i in range(1, 19)]
 
 # whole-function theorems against Spec/* (a transcription of FIPS 204 that mentions nothing of the crate); appended to the claim text
 LITERAL = {
+ 'C01': "Literal specification (Props/C01d): fips_204_signatures_verify_as_written - carried through the crate by the three whole-function theorems, the round trip holds of the transcription of the standard itself: "
+        "whenever Spec.keyGenInternal(xi) = (pk, sk) and Spec.signInternal(skDecode sk, M', rnd) = sigma, Spec.verifyInternal(pk, M', sigma) = true, for every seed, formatted message, rnd and oracle pair with SHAKE's prefix property.",
  'C02': "Literal specification (Props/C02c): verification_is_fips_204_algorithm_8_as_written - from the public-key bytes and the signature bytes, expand_public + verify_internal return exactly the Boolean of Spec.verifyInternal "
-        "(Algorithms 8, 21, 23, 27, 28, 29, 30, 32, 35-42 and Table 1 transcribed on explicit bit strings and XOF streams), for every input, both build modes.",
+        "(Algorithms 8, 21, 23, 27, 28, 29, 30, 32, 35-42 and Table 1 transcribed on explicit bit strings and XOF streams), for every input, both build modes. The transcription itself is executed on every run (driver operations spec_verify / spec_sign / spec_keygen) against the crate.",
  'C03': "Literal specification (Props/C03c, C03d): sign_internal_is_Sign_internal_as_written - for every accepted private-key byte string, message, context, pre-hash input and rnd, sign_internal on the struct expand_private built "
         "returns exactly the signature bytes Spec.signInternal (Algorithm 7 line by line, on Algorithms 25, 32, 34, 41, 42, 36-39, 29, 28, 26, 20) computes from the key bytes, within the 16-bit counter's range; expand_mask_is_ExpandMask "
         "(uses that a shorter SHAKE256 request is a prefix of a longer one).",
